@@ -11,6 +11,138 @@ The hand-written model uses only the right-hand sides.
 namespace Gca.Tie
 open Gca
 
+/-! ### Local lemma library: machine integers to `Nat` / `Int` arithmetic -/
+
+/-- Signed value of a 64-bit vector without `if` (so that `omega` can use it). -/
+theorem toInt64 (x : BitVec 64) :
+    x.toInt = (x.toNat : Int) - 18446744073709551616 * ((x.toNat / 9223372036854775808 : Nat) : Int) := by
+  have h := x.isLt
+  rw [BitVec.toInt_eq_toNat_cond]
+  split <;> omega
+
+theorem inWindow_decide (a b : Int) :
+    decide (TS.inWindow a b) = decide (b - 432 ≤ a ∧ a ≤ b + 432) :=
+  decide_eq_decide.mpr (by unfold TS.inWindow; exact Iff.rfl)
+
+theorem msb64_false (a : BitVec 64) (h : a.toNat < 2^63) : a.msb = false := by
+  rw [BitVec.msb_eq_decide]; simp; omega
+
+/-- Signed division of two non-negative int64 values is `Nat` division. -/
+theorem sdiv64_nonneg (a b : BitVec 64) (ha : a.toNat < 2^63) (hb : b.toNat < 2^63) :
+    (BitVec.sdiv a b).toNat = a.toNat / b.toNat := by
+  rw [BitVec.sdiv_eq, msb64_false a ha, msb64_false b hb]
+  simp only [BitVec.udiv_eq, BitVec.toNat_udiv]
+
+/-- Signed remainder of two non-negative int64 values is `Nat` remainder. -/
+theorem srem64_nonneg (a b : BitVec 64) (ha : a.toNat < 2^63) (hb : b.toNat < 2^63) :
+    (BitVec.srem a b).toNat = a.toNat % b.toNat := by
+  rw [BitVec.srem_eq, msb64_false a ha, msb64_false b hb]
+  simp only [BitVec.toNat_umod]
+
+theorem and_two_pow_eq_zero (a k : Nat) : (a &&& 2^k = 0) ↔ a / 2^k % 2 = 0 := by
+  have hpos : 0 < 2^k := Nat.two_pow_pos k
+  have h1 : (a &&& 2^k) / 2^k = a / 2^k % 2 := by
+    rw [Nat.and_div_two_pow, Nat.div_self hpos, Nat.and_one_is_mod]
+  have h2 : (a &&& 2^k) % 2^k = 0 := by
+    rw [Nat.and_mod_two_pow, Nat.mod_self, Nat.and_zero]
+  have h3 := Nat.div_add_mod (a &&& 2^k) (2^k)
+  constructor
+  · intro h; rw [h] at h1; simpa using h1.symm
+  · intro h; rw [h] at h1; rw [h1, h2] at h3; simpa using h3.symm
+
+/-- Zero-extension of a 32-bit value to 64 bits keeps the value. -/
+theorem zext32_toNat (x : BitVec 32) : (BitVec.setWidth 64 x).toNat = x.toNat := by
+  have := x.isLt
+  simp only [BitVec.toNat_setWidth, Nat.reducePow]; omega
+
+theorem zext16_toNat (x : BitVec 16) : (BitVec.setWidth 64 x).toNat = x.toNat := by
+  have := x.isLt
+  simp only [BitVec.toNat_setWidth, Nat.reducePow]; omega
+
+/-- The standard conversion: comparisons and modular operations to `toNat` facts, then `omega`. -/
+macro "bv_arith" : tactic => `(tactic| (
+  try rw [Bool.eq_iff_iff]
+  try simp only [BitVec.slt, BitVec.sle, BitVec.ult, BitVec.ule, toInt64, BitVec.toNat_add, BitVec.toNat_sub,
+    BitVec.toNat_mul, BitVec.toNat_neg, BitVec.udiv_eq, BitVec.umod_eq, BitVec.toNat_udiv, BitVec.toNat_umod,
+    zext32_toNat, zext16_toNat, BitVec.toNat_ofNat,
+    Bool.or_eq_true, Bool.and_eq_true, decide_eq_true_eq, Bool.not_eq_true', decide_eq_false_iff_not,
+    beq_iff_eq, bne_iff_ne, ne_eq, ← BitVec.toNat_inj,
+    Nat.reducePow, Nat.reduceMod, Nat.reduceSub]
+  all_goals omega))
+
+/-- The slot computation shared by `UnixToTimeslot` and `CurrentTimeslot`. -/
+theorem slot_sdiv (t : BitVec 64) (h : ¬ t.toInt < 1700352000) :
+    (BitVec.sdiv (t - (1700352000#64)) (300#64)).toNat = (t.toNat - 1700352000) / 300
+    ∧ t.toInt = t.toNat ∧ 1700352000 ≤ t.toNat ∧ t.toNat < 2^63 := by
+  have ht := t.isLt
+  have hb : t.toInt = t.toNat ∧ 1700352000 ≤ t.toNat ∧ t.toNat < 2^63 := by
+    rw [toInt64] at h ⊢; omega
+  have hsub : (t - 1700352000#64).toNat = t.toNat - 1700352000 := by
+    simp only [BitVec.toNat_sub, BitVec.toNat_ofNat, Nat.reducePow, Nat.reduceMod, Nat.reduceSub]; omega
+  refine ⟨?_, hb⟩
+  rw [sdiv64_nonneg _ _ (by omega) (by decide), hsub]
+  rfl
+
+/-- The 128-bit product `cap * 135` does not overflow. -/
+theorem prod_toNat (cap : BitVec 64) :
+    (BitVec.setWidth 128 cap * BitVec.setWidth 128 (135#64)).toNat = cap.toNat * 135 := by
+  have := cap.isLt
+  simp only [BitVec.toNat_mul, BitVec.toNat_setWidth, BitVec.toNat_ofNat, Nat.reducePow, Nat.reduceMod]
+  omega
+
+theorem hi_toNat (cap : BitVec 64) :
+    (BitVec.setWidth 64 ((BitVec.setWidth 128 cap * BitVec.setWidth 128 (135#64)) >>> 64)).toNat
+      = cap.toNat * 135 / 2^64 := by
+  have := cap.isLt
+  simp only [BitVec.toNat_setWidth, BitVec.toNat_ushiftRight, prod_toNat, Nat.shiftRight_eq_div_pow]
+  omega
+
+theorem lo_toNat (cap : BitVec 64) :
+    (BitVec.setWidth 64 (BitVec.setWidth 128 cap * BitVec.setWidth 128 (135#64))).toNat
+      = cap.toNat * 135 % 2^64 := by
+  simp only [BitVec.toNat_setWidth, prod_toNat]
+
+/-- `hi <<< 64 ||| lo` in 128 bits is `hi * 2^64 + lo`. -/
+theorem hilo (hi lo : BitVec 64) :
+    ((BitVec.setWidth 128 hi <<< 64) ||| BitVec.setWidth 128 lo).toNat = hi.toNat * 2^64 + lo.toNat := by
+  have h1 := hi.isLt
+  have h2 := lo.isLt
+  have e1 : (BitVec.setWidth 128 hi).toNat = hi.toNat := by
+    simp only [BitVec.toNat_setWidth, Nat.reducePow]; omega
+  have e2 : (BitVec.setWidth 128 lo).toNat = lo.toNat := by
+    simp only [BitVec.toNat_setWidth, Nat.reducePow]; omega
+  rw [BitVec.toNat_or, BitVec.toNat_shiftLeft, e1, e2]
+  have e3 : hi.toNat <<< 64 % 2^128 = hi.toNat <<< 64 := by
+    simp only [Nat.shiftLeft_eq]; omega
+  rw [e3, ← Nat.shiftLeft_add_eq_or_of_lt h2, Nat.shiftLeft_eq]
+
+/-- Recombining the two halves gives the product back. -/
+theorem hilo_toNat (cap : BitVec 64) :
+    ((BitVec.setWidth 128 (BitVec.setWidth 64 ((BitVec.setWidth 128 cap * BitVec.setWidth 128 (135#64)) >>> 64)) <<< 64)
+      ||| BitVec.setWidth 128 (BitVec.setWidth 64 (BitVec.setWidth 128 cap * BitVec.setWidth 128 (135#64)))).toNat
+      = cap.toNat * 135 := by
+  rw [hilo, hi_toNat, lo_toNat]
+  omega
+
+theorem limit_toNat (cap : BitVec 64) :
+    (if (BitVec.ult (BitVec.setWidth 64 ((BitVec.setWidth 128 cap * BitVec.setWidth 128 (135#64)) >>> 64)) (100#64)) then (BitVec.setWidth 64 (BitVec.udiv ((BitVec.setWidth 128 (BitVec.setWidth 64 ((BitVec.setWidth 128 cap * BitVec.setWidth 128 (135#64)) >>> 64)) <<< 64) ||| BitVec.setWidth 128 (BitVec.setWidth 64 (BitVec.setWidth 128 cap * BitVec.setWidth 128 (135#64)))) (BitVec.setWidth 128 (100#64)))) else (18446744073709551615#64)).toNat
+      = min (135 * cap.toNat / 100) (2^64 - 1) := by
+  have hc := cap.isLt
+  simp only [BitVec.ult, hi_toNat, BitVec.toNat_ofNat, Nat.reducePow, Nat.reduceMod]
+  split
+  · rename_i h
+    simp only [decide_eq_true_eq] at h
+    rw [BitVec.toNat_setWidth, BitVec.udiv_eq, BitVec.toNat_udiv, hilo_toNat]
+    simp only [BitVec.toNat_setWidth, BitVec.toNat_ofNat, Nat.reducePow, Nat.reduceMod]
+    have h1 : cap.toNat * 135 < 100 * 18446744073709551616 := by omega
+    have h2 : cap.toNat * 135 / 100 < 18446744073709551616 := by omega
+    rw [Nat.mod_eq_of_lt h2, Nat.mul_comm]
+    omega
+  · rename_i h
+    simp only [decide_eq_true_eq] at h
+    simp only [BitVec.toNat_ofNat, Nat.reducePow, Nat.reduceMod]
+    omega
+
 /-! ### C20 / C01: acceptance window, timeslot conversions -/
 
 /-- `UnixToTimeslot`: for every int64 time the Go function returns an error
@@ -18,35 +150,74 @@ exactly when the specification refuses, and otherwise the same slot. -/
 theorem unixToTimeslot (t : BitVec 64) :
     (if Gen.UnixToTimeslot.c0 t || Gen.UnixToTimeslot.c1 t then none
      else some (Gen.UnixToTimeslot.ret2_0 t).toNat) = TS.toSlot 1700352000 t.toInt := by
-  sorry
+  unfold Gen.UnixToTimeslot.c0 Gen.UnixToTimeslot.c1 Gen.UnixToTimeslot.ret2_0 TS.toSlot
+  have hg : (1700352000#64).toInt = 1700352000 := by decide
+  have h4 : (4294967295#64).toInt = 4294967295 := by decide
+  simp only [BitVec.slt, hg, h4]
+  by_cases h : t.toInt < 1700352000
+  · simp [h]
+  · obtain ⟨hd, hti, hge, hlt⟩ := slot_sdiv t h
+    have hdi : (BitVec.sdiv (t - 1700352000#64) (300#64)).toInt = (t.toInt - 1700352000) / 300 := by
+      rw [toInt64, hd, hti]; omega
+    simp only [h, decide_false, Bool.false_or, ↓reduceIte, hdi]
+    by_cases h2 : 4294967295 < (t.toInt - 1700352000) / 300
+    · simp [h2]
+    · simp only [h2, decide_false, Bool.false_eq_true, ↓reduceIte]
+      congr 1
+      rw [BitVec.toNat_setWidth, hd]
+      omega
 
 /-- `TimeslotToUnix` for every uint32 timeslot (no wrap-around). -/
 theorem timeslotToUnix (s : BitVec 32) :
     (Gen.TimeslotToUnix.ret0_0 s).toInt = TS.toUnix 1700352000 s.toNat := by
-  sorry
+  unfold Gen.TimeslotToUnix.ret0_0 TS.toUnix
+  have h := s.isLt
+  have e : (1700352000#64 + BitVec.setWidth 64 s * 300#64).toNat = 1700352000 + s.toNat * 300 := by
+    simp only [BitVec.toNat_add, BitVec.toNat_mul, zext32_toNat, BitVec.toNat_ofNat, Nat.reducePow, Nat.reduceMod]
+    rw [Nat.mod_eq_of_lt (by omega : s.toNat * 300 < 18446744073709551616), Nat.mod_eq_of_lt (by omega)]
+  rw [toInt64, e]
+  omega
 
 /-- Production `CurrentTimeslot`: panics exactly before genesis ... -/
 theorem currentTimeslot_guard (t : BitVec 64) :
     Gen.CurrentTimeslot.c0 t = decide (t.toInt < 1700352000) := by
-  sorry
+  unfold Gen.CurrentTimeslot.c0
+  have hg : (1700352000#64).toInt = 1700352000 := by decide
+  simp only [BitVec.slt, hg]
 
 /-- ... and otherwise is the specification's slot of the system clock (as long
 as the slot fits 32 bits, i.e. for the next ~40 000 years). -/
 theorem currentTimeslot_value (t : BitVec 64) (s : Nat)
     (h : TS.toSlot 1700352000 t.toInt = some s) :
     (Gen.CurrentTimeslot.ret0_0 t).toNat = s := by
-  sorry
+  unfold Gen.CurrentTimeslot.ret0_0
+  unfold TS.toSlot at h
+  by_cases h0 : t.toInt < 1700352000
+  · simp [h0] at h
+  · obtain ⟨hd, hti, hge, hlt⟩ := slot_sdiv t h0
+    simp only [h0, ↓reduceIte] at h
+    split at h
+    · cases h
+    · rename_i h2
+      cases h
+      rw [BitVec.toNat_setWidth, hd]
+      omega
 
 /-- The acceptance-window test of the report listener rejects exactly the
 timeslots more than 432 away from `now`, for every pair of 32-bit values. -/
 theorem window (now ts : BitVec 32) (p : BitVec 64) :
     Gen.HandleReport.c0 now p ts = !decide (TS.inWindow ts.toNat now.toNat) := by
-  sorry
+  unfold Gen.HandleReport.c0
+  rw [inWindow_decide]
+  have h1 := now.isLt
+  have h2 := ts.isLt
+  bv_arith
 
 /-- The sentinel test rejects exactly power 0 and 1. -/
 theorem sentinel (now ts : BitVec 32) (p : BitVec 64) :
     Gen.HandleReport.c1 now p ts = decide (p.toNat = 0 ∨ p.toNat = 1) := by
-  sorry
+  unfold Gen.HandleReport.c1
+  bv_arith
 
 theorem handleReport_kinds : Gen.HandleReport.condKinds = ["if-exit", "if-exit"] := by decide
 
@@ -58,13 +229,19 @@ theorem storage (cap nRecent p slotP : BitVec 64) (slotEq : Bool) (off ts : BitV
     (hoff : off.toNat + 4032 < 2^32) :
     (Gen.Integrate.c0 cap nRecent off p slotEq slotP ts || Gen.Integrate.c1 cap nRecent off p slotEq slotP ts)
       = !decide (off.toNat ≤ ts.toNat ∧ ts.toNat < off.toNat + 4032) := by
-  sorry
+  unfold Gen.Integrate.c0 Gen.Integrate.c1
+  have h1 := off.isLt
+  have h2 := ts.isLt
+  bv_arith
 
 /-- The slot index is `ts - off`, hence below 4032 whenever the guards pass. -/
 theorem storage_index (cap nRecent p slotP : BitVec 64) (slotEq : Bool) (off ts : BitVec 32)
     (h : off.toNat ≤ ts.toNat) :
     (Gen.Integrate.index0 cap nRecent off p slotEq slotP ts).toNat = ts.toNat - off.toNat := by
-  sorry
+  unfold Gen.Integrate.index0
+  have h1 := off.isLt
+  have h2 := ts.isLt
+  bv_arith
 
 theorem integrate_kinds : Gen.Integrate.condKinds =
     ["if-exit", "if-exit", "if-exit", "if-exit", "if", "if", "if", "if"] := by decide
@@ -73,13 +250,15 @@ theorem integrate_kinds : Gen.Integrate.condKinds =
 
 theorem slot_banned (cap nRecent p slotP : BitVec 64) (slotEq : Bool) (off ts : BitVec 32) :
     Gen.Integrate.c2 cap nRecent off p slotEq slotP ts = decide (slotP.toNat = 1) := by
-  sorry
+  unfold Gen.Integrate.c2
+  bv_arith
 theorem slot_duplicate (cap nRecent p slotP : BitVec 64) (slotEq : Bool) (off ts : BitVec 32) :
     Gen.Integrate.c3 cap nRecent off p slotEq slotP ts = slotEq := by
-  sorry
+  rfl
 theorem slot_empty (cap nRecent p slotP : BitVec 64) (slotEq : Bool) (off ts : BitVec 32) :
     Gen.Integrate.c4 cap nRecent off p slotEq slotP ts = decide (slotP.toNat = 0) := by
-  sorry
+  unfold Gen.Integrate.c4
+  bv_arith
 
 /-! ### C02: capacity rule, for every 64-bit power and capacity (no overflow anywhere) -/
 
@@ -87,38 +266,60 @@ theorem slot_empty (cap nRecent p slotP : BitVec 64) (slotEq : Bool) (off ts : B
 theorem capacity_limit (cap nRecent p slotP : BitVec 64) (slotEq : Bool) (off ts : BitVec 32) :
     (Gen.Integrate.local_limit cap nRecent off p slotEq slotP ts).toNat
       = min (135 * cap.toNat / 100) (2^64 - 1) := by
-  sorry
+  unfold Gen.Integrate.local_limit
+  exact limit_toNat cap
 
 /-- A report is banned for over-capacity exactly when its power is non-negative
 (below 2^63) and exceeds 135 % of the capacity. -/
 theorem capacity (cap nRecent p slotP : BitVec 64) (slotEq : Bool) (off ts : BitVec 32) :
     Gen.Integrate.c6 cap nRecent off p slotEq slotP ts
       = decide (100 * p.toNat > 135 * cap.toNat ∧ p.toNat < 2^63) := by
-  sorry
+  have hc := cap.isLt
+  have hp := p.isLt
+  have e : Gen.Integrate.c6 cap nRecent off p slotEq slotP ts
+      = (BitVec.ult (Gen.Integrate.local_limit cap nRecent off p slotEq slotP ts) p
+          && BitVec.ule p (9223372036854775807#64)) := rfl
+  have hl := capacity_limit cap nRecent p slotP slotEq off ts
+  rw [e, Bool.eq_iff_iff]
+  simp only [BitVec.ult, BitVec.ule, hl, BitVec.toNat_ofNat, Nat.reducePow, Nat.reduceMod,
+    Bool.and_eq_true, decide_eq_true_eq]
+  omega
 
 /-! ### C03: rotation triggers, week selection -/
 
 theorem startup_catchup (now off : BitVec 32) :
     Gen.MigrateLoop.c0 now off = decide ((now.toNat : Int) - off.toNat < 4000) := by
-  sorry
+  unfold Gen.MigrateLoop.c0
+  have h1 := now.isLt
+  have h2 := off.isLt
+  bv_arith
 
 theorem rotation_trigger (now off : BitVec 32) :
     Gen.MigrateLoop.c1 now off = decide ((now.toNat : Int) - off.toNat > 3200) := by
-  sorry
+  unfold Gen.MigrateLoop.c1
+  have h1 := now.isLt
+  have h2 := off.isLt
+  bv_arith
 
 theorem migrateLoop_kinds : Gen.MigrateLoop.condKinds = ["if-exit", "if"] := by decide
 
 theorem stats_misaligned (hoff off tso : BitVec 32) :
     Gen.StatsHandler.c0 hoff off tso = decide (tso.toNat % 2016 ≠ 0) := by
-  sorry
+  unfold Gen.StatsHandler.c0
+  have h1 := tso.isLt
+  bv_arith
 
 theorem stats_archived (hoff off tso : BitVec 32) :
     Gen.StatsHandler.c1 hoff off tso = decide (tso.toNat < off.toNat) := by
-  sorry
+  unfold Gen.StatsHandler.c1
+  bv_arith
 
 theorem stats_archive_index (hoff off tso : BitVec 32) (h : hoff.toNat ≤ tso.toNat) :
     (Gen.StatsHandler.index0 hoff off tso).toNat = (tso.toNat - hoff.toNat) / 2016 := by
-  sorry
+  unfold Gen.StatsHandler.index0
+  have h1 := tso.isLt
+  have h2 := hoff.isLt
+  bv_arith
 
 theorem stats_kinds : Gen.StatsHandler.condKinds = ["if-exit", "if"] := by decide
 
@@ -126,12 +327,20 @@ theorem stats_kinds : Gen.StatsHandler.condKinds = ["if-exit", "if"] := by decid
 theorem buildStats_refusal (off tso : BitVec 32) (hoff : off.toNat + 2016 < 2^32) :
     (Gen.BuildStats.c0 off tso || Gen.BuildStats.c1 off tso || Gen.BuildStats.c3 off tso)
       = !decide (tso.toNat % 2016 = 0 ∧ off.toNat ≤ tso.toNat ∧ tso.toNat ≤ off.toNat + 2016) := by
-  sorry
+  unfold Gen.BuildStats.c0 Gen.BuildStats.c1 Gen.BuildStats.c3
+  have h1 := tso.isLt
+  have h2 := off.isLt
+  bv_arith
 
 /-- ... and the second week is read from array position 2016, the first from 0. -/
 theorem buildStats_base (off tso : BitVec 32) (hoff : off.toNat + 2016 < 2^32) :
     (Gen.BuildStats.local_x off tso).toNat = if tso.toNat = off.toNat + 2016 then 2016 else 0 := by
-  sorry
+  unfold Gen.BuildStats.local_x
+  have h1 := tso.isLt
+  have h2 := off.isLt
+  have e : (tso == off + 2016#32) = decide (tso.toNat = off.toNat + 2016) := by bv_arith
+  rw [e]
+  by_cases h : tso.toNat = off.toNat + 2016 <;> simp [h]
 
 theorem buildStats_kinds : Gen.BuildStats.condKinds = ["if-exit", "if-exit", "if", "if-exit"] := by decide
 
@@ -140,45 +349,79 @@ theorem buildStats_kinds : Gen.BuildStats.condKinds = ["if-exit", "if-exit", "if
 /-- Server: bit `i` is set iff the stored power is non-zero (banned slots
 included), in byte `i / 8` at position `i % 8`. -/
 theorem sync_bit_rule (i p : BitVec 64) : Gen.SyncConn.c0 i p = decide (p.toNat > 0) := by
-  sorry
+  unfold Gen.SyncConn.c0
+  bv_arith
 theorem sync_byte_index (i p : BitVec 64) (h : i.toNat < 4032) :
     (Gen.SyncConn.local_byteIndex i p).toNat = i.toNat / 8 ∧
     (Gen.SyncConn.index0 i p).toNat = i.toNat / 8 ∧
     (Gen.SyncConn.local_bitIndex i p).toNat = i.toNat % 8 := by
-  sorry
+  unfold Gen.SyncConn.local_byteIndex Gen.SyncConn.index0 Gen.SyncConn.local_bitIndex
+  have h8 : (8#64).toNat = 8 := by decide
+  rw [sdiv64_nonneg i _ (by omega) (by decide), srem64_nonneg i _ (by omega) (by decide), h8]
+  exact ⟨rfl, rfl, rfl⟩
 
 /-- Client: the resend loop visits index `i` iff `i ≤ latest - off` (32-bit
 wrap-around subtraction, as in the source) and `i / 8 < 504`. -/
 theorem resend_loop (bfByte : BitVec 8) (errB : Bool) (i latest off pw : BitVec 32) :
     Gen.SyncRound.c7 bfByte errB i latest off pw
       = decide (i.toNat ≤ (latest.toNat + 2^32 - off.toNat) % 2^32 ∧ i.toNat / 8 < 504) := by
-  sorry
+  unfold Gen.SyncRound.c7
+  have h1 := i.isLt
+  have h2 := latest.isLt
+  have h3 := off.isLt
+  have hz : (BitVec.setWidth 64 i).toNat = i.toNat := by
+    simp only [BitVec.toNat_setWidth, Nat.reducePow]; omega
+  have hs : (BitVec.sdiv (BitVec.setWidth 64 i) (8#64)).toNat = i.toNat / 8 := by
+    rw [sdiv64_nonneg _ _ (by omega) (by decide), hz]; rfl
+  rw [Bool.eq_iff_iff]
+  simp only [BitVec.slt, BitVec.ule, toInt64, hs, BitVec.toNat_sub, BitVec.toNat_ofNat,
+    Bool.and_eq_true, decide_eq_true_eq, Nat.reducePow, Nat.reduceMod]
+  omega
 
 /-- Client: the bit test reads bit `i % 8` of the byte. -/
 theorem resend_bit (bfByte : BitVec 8) (errB : Bool) (i latest off pw : BitVec 32) :
     Gen.SyncRound.c8 bfByte errB i latest off pw = decide (bfByte.toNat / 2^(i.toNat % 8) % 2 = 0) := by
-  sorry
+  unfold Gen.SyncRound.c8
+  have hk : i.toNat % 8 < 8 := Nat.mod_lt _ (by decide)
+  have h8 : (BitVec.umod i (8#32)).toNat = i.toNat % 8 := by
+    rw [BitVec.umod_eq, BitVec.toNat_umod]; rfl
+  rw [h8, Bool.eq_iff_iff]
+  simp only [beq_iff_eq, ← BitVec.toNat_inj, BitVec.toNat_and, BitVec.toNat_shiftLeft, BitVec.toNat_ofNat,
+    decide_eq_true_eq, Nat.reducePow, Nat.reduceMod, Nat.one_shiftLeft]
+  have hp : 2 ^ (i.toNat % 8) % 256 = 2 ^ (i.toNat % 8) := by
+    apply Nat.mod_eq_of_lt
+    calc 2 ^ (i.toNat % 8) < 2 ^ 8 := Nat.pow_lt_pow_right (by decide) hk
+      _ = 256 := by decide
+  rw [hp]
+  exact and_two_pow_eq_zero _ _
 
 /-- Client: readings below 2 (sentinels, unreadable) are not retransmitted. -/
 theorem resend_skip (bfByte : BitVec 8) (errB : Bool) (i latest off pw : BitVec 32) :
     Gen.SyncRound.c9 bfByte errB i latest off pw = (errB || decide (pw.toNat < 2)) := by
-  sorry
+  unfold Gen.SyncRound.c9
+  bv_arith
 
 /-- Client: the retransmitted power is the stored 32-bit value sign-extended to 64 bits. -/
 theorem resend_energy (bfByte : BitVec 8) (errB : Bool) (i latest off pw : BitVec 32) :
     (Gen.SyncRound.field_Energy bfByte errB i latest off pw).toNat
       = if pw.toNat < 2^31 then pw.toNat else 2^64 - 2^32 + pw.toNat := by
-  sorry
+  unfold Gen.SyncRound.field_Energy
+  have h1 := pw.isLt
+  rw [BitVec.toNat_signExtend, BitVec.msb_eq_decide]
+  simp only [BitVec.toNat_setWidth, decide_eq_true_eq, Nat.reducePow, Nat.reduceSub]
+  split <;> split <;> omega
 
 theorem resend_timeslot (bfByte : BitVec 8) (errB : Bool) (i latest off pw : BitVec 32) :
     (Gen.SyncRound.field_Timeslot bfByte errB i latest off pw).toNat = (i.toNat + off.toNat) % 2^32 := by
-  sorry
+  unfold Gen.SyncRound.field_Timeslot
+  bv_arith
 
 /-! ### C10 / C11: reply length and freshness -/
 
 theorem reply_min_length (now signingTime : BitVec 64) (respLen : BitVec 16) :
     Gen.ServerSync.c0 now respLen signingTime = decide (respLen.toNat < 712) := by
-  sorry
+  unfold Gen.ServerSync.c0
+  bv_arith
 
 /-- Freshness: rejected iff the signing time is more than 24 h from the
 client's clock, for every pair of 64-bit values with `now` at least a day after
@@ -187,48 +430,76 @@ theorem reply_freshness (now signingTime : BitVec 64) (respLen : BitVec 16)
     (h1 : 86400 ≤ now.toNat) (h2 : now.toNat + 86400 < 2^64) :
     Gen.ServerSync.c1 now respLen signingTime
       = decide (now.toNat + 86400 < signingTime.toNat ∨ signingTime.toNat < now.toNat - 86400) := by
-  sorry
+  unfold Gen.ServerSync.c1
+  have h3 := now.isLt
+  have h4 := signingTime.isLt
+  bv_arith
 
 /-! ### C09: history store guards and byte offset -/
 
 theorem save_before_origin (cur off rd ts : BitVec 32) :
     Gen.SaveReading.c0 cur off rd ts = decide (ts.toNat < off.toNat) := by
-  sorry
+  unfold Gen.SaveReading.c0
+  bv_arith
 theorem save_beyond_range (cur off rd ts : BitVec 32) (h : off.toNat ≤ ts.toNat) :
     Gen.SaveReading.c1 cur off rd ts = decide (2^30 - 1 ≤ ts.toNat - off.toNat) := by
-  sorry
+  unfold Gen.SaveReading.c1
+  have h1 := off.isLt
+  have h2 := ts.isLt
+  bv_arith
 theorem save_same (cur off rd ts : BitVec 32) :
     Gen.SaveReading.c2 cur off rd ts = decide (cur.toNat = rd.toNat) := by
-  sorry
+  unfold Gen.SaveReading.c2
+  bv_arith
 theorem save_occupied (cur off rd ts : BitVec 32) :
     Gen.SaveReading.c3 cur off rd ts = decide (cur.toNat ≠ 0) := by
-  sorry
+  unfold Gen.SaveReading.c3
+  bv_arith
 /-- Inside the accepted range the byte offset is exact (no 32-bit wrap-around). -/
 theorem save_offset (cur off rd ts : BitVec 32) (h : off.toNat ≤ ts.toNat)
     (h2 : ts.toNat - off.toNat < 2^30 - 1) :
     (Gen.SaveReading.local_byteOffset cur off rd ts).toNat = 4 * (1 + (ts.toNat - off.toNat)) := by
-  sorry
+  unfold Gen.SaveReading.local_byteOffset
+  have h3 := off.isLt
+  have h4 := ts.isLt
+  bv_arith
 theorem save_kinds : Gen.SaveReading.condKinds = ["if-exit", "if-exit", "if-exit", "if-exit"] := by decide
 
 theorem load_before_origin (off ts : BitVec 32) :
     Gen.LoadReading.c0 off ts = decide (ts.toNat < off.toNat) := by
-  sorry
+  unfold Gen.LoadReading.c0
+  bv_arith
 theorem load_beyond_range (off ts : BitVec 32) (h : off.toNat ≤ ts.toNat) :
     Gen.LoadReading.c1 off ts = decide (2^30 - 1 ≤ ts.toNat - off.toNat) := by
-  sorry
+  unfold Gen.LoadReading.c1
+  have h1 := off.isLt
+  have h2 := ts.isLt
+  bv_arith
 theorem load_offset (off ts : BitVec 32) (h : off.toNat ≤ ts.toNat) (h2 : ts.toNat - off.toNat < 2^30 - 1) :
     (Gen.LoadReading.local_byteOffset off ts).toNat = 4 * (1 + (ts.toNat - off.toNat)) := by
-  sorry
+  unfold Gen.LoadReading.local_byteOffset
+  have h3 := off.isLt
+  have h4 := ts.isLt
+  bv_arith
 theorem load_kinds : Gen.LoadReading.condKinds = ["if-exit", "if-exit"] := by decide
 
 /-! ### C13 / C12: impact job re-validation -/
 
 theorem impact_guard (ex : Bool) (off ts : BitVec 32) :
     Gen.ImpactRound.c1 ex off ts = (ex && decide (off.toNat ≤ ts.toNat ∧ ts.toNat - off.toNat < 4032)) := by
-  sorry
+  unfold Gen.ImpactRound.c1
+  have h1 := off.isLt
+  have h2 := ts.isLt
+  cases ex
+  · simp
+  · simp only [Bool.true_and]
+    bv_arith
 theorem impact_index (ex : Bool) (off ts : BitVec 32) (h : off.toNat ≤ ts.toNat) :
     (Gen.ImpactRound.index0 ex off ts).toNat = ts.toNat - off.toNat := by
-  sorry
+  unfold Gen.ImpactRound.index0
+  have h1 := off.isLt
+  have h2 := ts.isLt
+  bv_arith
 
 /-! ### C19 / C18: comparisons of the rate limiter and the event log (signed 64-bit, no overflow in range) -/
 
@@ -236,26 +507,46 @@ theorem impact_index (ex : Bool) (off ts : BitVec 32) (h : off.toNat ≤ ts.toNa
 theorem rate_expiry (limit n now rate t : BitVec 64)
     (hn : now.toInt.natAbs < 2^62) (hr : rate.toInt.natAbs < 2^62) :
     Gen.RateAllow.c0 limit n now rate t = decide (t.toInt > now.toInt - rate.toInt) := by
-  sorry
+  unfold Gen.RateAllow.c0
+  have h1 := now.isLt
+  have h2 := rate.isLt
+  have h3 := t.isLt
+  rw [toInt64] at hn hr
+  bv_arith
 theorem rate_limit (limit n now rate t : BitVec 64) :
     Gen.RateAllow.c1 limit n now rate t = decide (n.toInt < limit.toInt) := by
-  sorry
+  unfold Gen.RateAllow.c1
+  simp only [BitVec.slt]
 theorem rate_kinds : Gen.RateAllow.condKinds = ["if-exit", "if-exit"] := by decide
 
 theorem log_expiry (expiry now ts : BitVec 64)
     (hn : now.toInt.natAbs < 2^62) (he : expiry.toInt.natAbs < 2^62) :
     Gen.LogExpire.c0 expiry now ts = decide (ts.toInt < now.toInt - expiry.toInt) := by
-  sorry
+  unfold Gen.LogExpire.c0
+  have h1 := now.isLt
+  have h2 := expiry.isLt
+  have h3 := ts.isLt
+  rw [toInt64] at hn he
+  bv_arith
 theorem log_cut (klen maxB maxLine size : BitVec 64) :
     Gen.LogPrintf.c0 klen maxB maxLine size = decide (klen.toInt > maxLine.toInt) := by
-  sorry
+  unfold Gen.LogPrintf.c0
+  simp only [BitVec.slt, gt_iff_lt]
 theorem log_unstorable (klen maxB maxLine size : BitVec 64) (hk : klen.toNat < 2^62) :
     Gen.LogPrintf.c1 klen maxB maxLine size = decide (2 * klen.toInt > maxB.toInt) := by
-  sorry
+  unfold Gen.LogPrintf.c1
+  have h1 := maxB.isLt
+  bv_arith
 theorem log_evict (klen maxB maxLine size : BitVec 64) (hk : klen.toNat < 2^61) (hs : size.toInt.natAbs < 2^62) :
     Gen.LogPrintf.c2 klen maxB maxLine size = decide (2 * klen.toInt + size.toInt > maxB.toInt) ∧
     Gen.LogPrintf.c3 klen maxB maxLine size = decide (2 * klen.toInt + size.toInt > maxB.toInt) := by
-  sorry
+  unfold Gen.LogPrintf.c2 Gen.LogPrintf.c3
+  have h1 := maxB.isLt
+  have h2 := size.isLt
+  rw [toInt64] at hs
+  have e : BitVec.slt maxB (2#64 * klen + size) = decide (2 * klen.toInt + size.toInt > maxB.toInt) := by
+    bv_arith
+  exact ⟨e, e⟩
 theorem log_kinds : Gen.LogPrintf.condKinds = ["if", "if-exit", "if", "for"] := by decide
 
 end Gca.Tie
